@@ -41,8 +41,13 @@ func harnessWorkDir() string {
 
 // newServer builds a real GripServer around an injected graph database.
 func newServer(db gdbi.GraphDB) *server.GripServer {
+	return newServerWorkDir(db, filepath.Join(harnessWorkDir(), "work"))
+}
+
+// newServerWorkDir is newServer with a private work directory (temporary storage of traversals).
+func newServerWorkDir(db gdbi.GraphDB, workDir string) *server.GripServer {
 	conf := config.DefaultConfig()
-	conf.Server.WorkDir = filepath.Join(harnessWorkDir(), "work")
+	conf.Server.WorkDir = workDir
 	conf.Default = "mem"
 	var srv *server.GripServer
 	var err error
